@@ -92,7 +92,17 @@ def check_case(case, cwd):
     tn = len(tnm)
     fmt = case['fmt']
     S = _ar.BDD()
-    S.declare(*so)
+    if case.get('src_history'):
+        # the dumping manager was reordered after declaring (its vars
+        # dict is not in level order) and has free node numbers below
+        # its largest live node
+        S.declare(*sorted(so))
+        junk = Builder(S._bdd, nm)
+        for g in case.get('junk', [6, 9]):
+            junk(g & tt.full(n))
+        S.reorder({x: l for l, x in enumerate(so)})
+    else:
+        S.declare(*so)
     sbd = Builder(S._bdd, nm)
     tabs = case['roots']
     sf = [_ar.Function(sbd(t), S) for t in tabs]
@@ -170,7 +180,8 @@ def check_case(case, cwd):
         # variables and (where requested) their levels as dumped
         require(set(T.vars) == set(so), 'load.vars_differ',
                 dict(got=dict(T.vars)))
-        if levels or fmt == '_copy.json.load_order':
+        if (levels and fmt.endswith('pickle')) or \
+                fmt == '_copy.json.load_order':
             require(dict(T.vars) == {x: l for l, x in enumerate(so)},
                     'load.levels_differ', dict(got=dict(T.vars)))
     return 'loaded'
@@ -198,7 +209,8 @@ def run_all(spec, out):
                         case = dict(base, kind='case', target=to, fmt=fmt,
                                     state=state, as_dict=as_dict,
                                     levels=levels, roots=list(range(F + 1)),
-                                    pre=[F // 3, 1])
+                                    pre=[F // 3, 1],
+                                    src_history=(as_dict != levels))
                         res = []
                         out.guard(case, lambda: res.append(
                             check_case(case, cwd)))
@@ -220,9 +232,16 @@ def check_special(case, cwd):
     nm = fix.names(n)
     b = fix.new_bdd(case['source'])
     bd = Builder(b, nm)
+    # nodes created first and collected later leave free numbers below
+    # the largest live node
+    for g in case.get('junk', []):
+        bd(g & tt.full(n))
+    bd = Builder(b, nm)
     refs = [bd(t) for t in case['roots']]
     for u in refs:
         b.incref(u)
+    if case.get('junk'):
+        b.collect_garbage()
     fname = os.path.join(cwd, 'sp.p')
     try:
         if case['mode'] == 'roots_none':
@@ -256,10 +275,15 @@ def check_special(case, cwd):
             for u in refs:
                 led[abs(u)] = led.get(abs(u), 0) + 1
             inv.check_manager(c, led, nm)
-            # the loaded manager is usable
+            # the loaded manager is usable: new nodes can be created
             r = c.apply('and', refs[0], refs[-1])
             require(Den(c, nm)(r) == case['roots'][0] & case['roots'][-1],
                     'load_manager.unusable')
+            bd2 = Builder(c, nm)
+            for g in (6, 9, 0x96, 0x1e, 0xca):
+                g &= tt.full(n)
+                require(Den(c, nm)(bd2(g)) == g, 'load_manager.unusable')
+            inv.check_structure(c)
     finally:
         if os.path.exists(fname):
             os.remove(fname)
@@ -282,7 +306,8 @@ def run_random(spec, out):
             min_size=1, max_size=4))
         if mode != 'rt':
             return dict(kind='special', n=n, source=list(so), mode=mode,
-                        roots=roots, levels=draw(st.booleans()))
+                        roots=roots, levels=draw(st.booleans()),
+                        junk=draw(st.lists(st.integers(0, F), max_size=4)))
         state = draw(st.sampled_from(
             ['fresh', 'same', 'declared', 'declared', 'extra']))
         extra = draw(st.integers(1, 2)) if state == 'extra' else 0
@@ -292,6 +317,8 @@ def run_random(spec, out):
         return dict(kind='case', n=n, source=list(so), target=list(to),
                     fmt=draw(st.sampled_from(FORMATS)), state=state,
                     as_dict=draw(st.booleans()),
+                    src_history=draw(st.booleans()),
+                    junk=draw(st.lists(st.integers(0, 65535), max_size=3)),
                     levels=draw(st.booleans()), roots=roots,
                     pre=draw(st.lists(st.integers(0, 65535), max_size=3)))
 
